@@ -68,7 +68,7 @@ FEAT = dict(
     w_try=3, p_guards=2, p_grej=1, w_override=3, override_behavior=True, p_recordprop=5, p_fault_stmt=2, ftab=True,
     p_spec_fault=3, p_require_setup=3, n_subscenarios=(0, 2), n_monitors=(0, 1), n_agents=(1, 2),
     n_behaviors=(1, 3), depth=2, block_len=(1, 3), max_steps=(2, 6), compose_try_waits_only=True,
-    p_ltl=1, p_sub_setup_reqs=3, modular=3, flat=1, p_occlusion=4,
+    p_ltl=1, p_sub_setup_reqs=3, modular=3, flat=1, p_occlusion=4, p_ego=4,
 )
 FEAT2 = dict(FEAT, w_override=0, p_recordprop=0, p_spec_fault=0, n_subscenarios=(0, 1), depth=1, p_occlusion=0)
 BUG_MODELS = ("override_first_only",)
